@@ -122,7 +122,7 @@ class Gen:
         if k < 0.5:
             return bits2d((r.getrandbits(1) << 63) | (r.randint(1, 2046) << 52) | r.getrandbits(52))
         if k < 0.8:
-            return r.choice([0.1 + 0.2, 1.0 / 3, 2.0 / 3, 0.1 * 3, 1e23, 5e-324 * 2 ** 60, 1.7976931348623157e308, 2.2250738585072014e-308, 9007199254740993.0, 1.0 + 2 ** -52, 4.35, 0.3 - 0.1])
+            return r.choice([-0.0, 5e-324, 1e-310, -3e-320, 0.1 + 0.2, 1.0 / 3, 2.0 / 3, 0.1 * 3, 1e23, 5e-324 * 2 ** 60, 1.7976931348623157e308, 2.2250738585072014e-308, 9007199254740993.0, 1.0 + 2 ** -52, 4.35, 0.3 - 0.1])
         return r.uniform(-10, 10)
 
     def dbl(self, hard):
